@@ -1,27 +1,26 @@
 package main
 
 import (
+	"errors"
 	"fmt"
-	"strings"
 
+	goerrors "github.com/ajitpratap0/GoSQLX/pkg/errors"
 	"github.com/ajitpratap0/GoSQLX/pkg/gosqlx"
-	"github.com/ajitpratap0/GoSQLX/pkg/sql/tokenizer"
+	"github.com/ajitpratap0/GoSQLX/pkg/sql/parser"
 )
 
 func main() {
-	for _, s := range []string{"SELECT 'left join' FROM t", "SELECT \"left join\" FROM t", "SELECT 'group by' FROM t", "SELECT 'ORDER BY' x", "SELECT a FROM t WHERE b = 'full join'", "SELECT 'grouping sets'", "SELECT $abc def", "SELECT @group by", "SELECT 'inner join', 'cross join', 'natural join', 'left outer join'"} {
+	for _, s := range []string{"SELECT 1 FROM t1 HAVING count(*) > 1a\nb", "SELECT 1 a\nb", "SELECT 1 FROM t a\nb c", "SELECT 1\nb"} {
+		st, errs := gosqlx.ParseWithRecovery(s)
+		fmt.Printf("%q: %d stmts\n", s, len(st))
+		for _, e := range errs {
+			var pe *parser.ParseError
+			var se *goerrors.Error
+			errors.As(e, &pe)
+			errors.As(e, &se)
+			fmt.Printf("   ParseError idx=%d line=%d col=%d lit=%q | cause loc %d:%d msg=%s\n", pe.TokenIdx, pe.Line, pe.Column, pe.Literal, se.Location.Line, se.Location.Column, se.Message)
+		}
 		_, err := gosqlx.Parse(s)
-		e := "ok"
-		if err != nil {
-			e = strings.Split(err.Error(), "\n")[0]
-		}
-		z := tokenizer.GetTokenizer()
-		toks, _ := z.Tokenize([]byte(s))
-		var tv []string
-		for _, t := range toks {
-			tv = append(tv, fmt.Sprintf("%s:%q", t.Token.Type, t.Token.Value))
-		}
-		tokenizer.PutTokenizer(z)
-		fmt.Printf("%-50s %s\n    %s\n", s, e, strings.Join(tv, " "))
+		fmt.Println("   strict:", err != nil)
 	}
 }
